@@ -21,6 +21,44 @@ CHECKS = {
             "Operand bytes past the selector are covered by fills and per-position sweeps, not all 2^40 tails; "
             "binja_test_mocks Encoder/Decoder trusted.",
             "DESIGN.md section 4, C02"),
+    "C01": ("exploration",
+            "exhaustive enumeration of the structural encoding space x every truncation length, follower classes, "
+            "ordered decode-history pairs and boundary addresses on the real decoder, arch callbacks and emulator fetch",
+            "All 16 x 256 x 256 structural shapes at every buffer length 0..7, every first-instruction representative "
+            "against one follower per (opcode, decode outcome) and full 65536-follower sweeps, all ordered pairs of "
+            "history representatives (each shard in a fresh process so histories are reproducible), boundary addresses; "
+            "metamorphic oracles need no reference, so every disagreement is a real one.",
+            "Operand bytes beyond the second are covered by fills (C02 sweeps every position); callbacks run against "
+            "binja_test_mocks as the repository's own tests do.",
+            "DESIGN.md section 4, C01"),
+    "C08": ("model_checking",
+            "explicit-state BFS over register write histories on the real Python Registers and Rust LlamaState "
+            "(closure per alias group, all sequences up to depth 2/3 over the full alphabet) against a reference register file",
+            "Every write sequence up to the stated depth over 16 write targets x a 15+ value palette, and every reachable "
+            "state of each alias group, is replayed on both real register files; after every write all 14 names are read "
+            "and compared with a reference model, a snapshot round trip into a fresh file and the register blobs.",
+            "Values come from a boundary palette (plus seed values), not all 2^32; the Rust side is driven through the "
+            "verification harness' thin command layer.",
+            "DESIGN.md section 4, C08"),
+    "C13": ("model_checking",
+            "explicit-state BFS to closure over tick/reset/snapshot/ISR-clear histories on the real TimerScheduler "
+            "(via PCE500Emulator._tick_timers) and Rust TimerContext::tick_timers against a reference timer pair",
+            "For every small period pair the canonical state space (distance to next targets, ISR bits) is explored to "
+            "closure with every transition executed on both real implementations; default periods get all directed gap "
+            "sequences up to length 3/4; per-cycle runs count fires exactly.",
+            "Machine-level cadence (WAIT/HALT cycles through CoreRuntime::step / PCE500Emulator.step) is covered by C12's "
+            "drivers, not here; periods above 7 are covered by directed sequences only.",
+            "DESIGN.md section 4, C13"),
+    "C17": ("exploration",
+            "complete comparison of a finite configuration space: all 256 opcode rows and every duplicated constant, "
+            "private Rust tables observed behaviourally through LlamaExecutor::execute",
+            "The space is finite (256 rows x 5 fields, register/IMEM/vector/address-space constants, 15 PRE bytes, "
+            "256 opcodes x 2 prefixes for the single-addressable rule, all view segment pairs) and is compared completely "
+            "on every run from the live Python modules and the live Rust statics.",
+            "Rust private tables (PRE_MODES, SINGLE_ADDRESSABLE_OPCODES, vector consts) are observed by execution on a "
+            "flat bus; Python-to-Rust row mapping follows scripts/generate_llama_opcodes.py except for EMemIMem width "
+            "(the script reads the wrong attribute; the table's own `_width` is compared).",
+            "DESIGN.md section 4, C17"),
 }
 
 PENDING_REASON = "check not built yet (work in progress; the technique applies, see DESIGN.md section 4)"
